@@ -67,6 +67,32 @@ def own1(ctx: Ctx) -> List[Ob]:
 IDEQ_ALLOW = {"Tree._self_check": "debug helper, not API"}
 
 
+#: operation family of the enclosing API function -> the properties whose behaviour it implements
+#: (used to attribute an identity-discipline finding to the operation it corrupts)
+_FAMILIES = [
+    (r"(^|\.)(filter|filtered|_add_filtered)($|\.)", ["C08"]),
+    (r"(^|\.)(copy|copy_to|_add_from)($|\.)", ["C07"]),
+    (r"(^|\.)(find_all|find_first|find|_search|__getitem__|__contains__)($|\.)", ["C09"]),
+    (r"(^|\.)(iterator|visit|_iter_\w+|_visit_\w+|__iter__)($|\.)", ["C06"]),
+    (r"(^|\.)(format|format_iter|_get_prefix|_render_lines)($|\.)", ["C16"]),
+    (r"(^|\.)(add_child|add|append_child|prepend_child|prepend_sibling|append_sibling|move_to|remove|remove_children|set_data|rename|sort_children|clear)($|\.)", ["C04"]),
+    (r"(^|\.)(to_dict|to_dict_list|from_dict)($|\.)", ["C14"]),
+    (r"(^|\.)(to_list_iter|save|load|_from_list)($|\.)", ["C05", "C12"]),
+]
+_FAMILY_MODULES = {"diff": ["C11"], "dot": ["C17"], "mermaid": ["C17"], "rdf": ["C17"], "fs": ["C19"], "tree_generator": ["C20"]}
+
+
+def family_props(f: Func) -> List[str]:
+    import re as _re
+
+    out = list(_FAMILY_MODULES.get(f.module, []))
+    q = f.qualname
+    for rx, ps in _FAMILIES:
+        if _re.search(rx, q):
+            out += ps
+    return sorted(set(out))
+
+
 def _ideq_props(f: Func, op: str, operand: ast.AST, slot: bool) -> List[str]:
     if f.top.cls is None and f.module == "node":
         # the shared identity-lookup helper: every position / unlink operation depends on it
@@ -81,11 +107,11 @@ def _ideq_props(f: Func, op: str, operand: ast.AST, slot: bool) -> List[str]:
     if op == "index":
         return ["C04"]
     if op == "in":
-        return ["C01", "C10"]
+        return sorted(set(["C01", "C10"]) | set(family_props(f)))
     return ["C10"]
 
 
-@rule("ID-EQ", ["C01", "C02", "C03", "C04", "C07", "C08", "C09", "C10", "C15"], floor=6, section="3.2")
+@rule("ID-EQ", ["C01", "C02", "C03", "C04", "C05", "C06", "C07", "C08", "C09", "C10", "C11", "C12", "C14", "C15", "C16", "C17", "C19", "C20"], floor=6, section="3.2")
 def ideq(ctx: Ctx) -> List[Ob]:
     """identity discipline: no implicit-equality list operation (remove/index/count/in) on a node list with a node operand (Node.__eq__ compares data)"""
     obs: List[Ob] = []
@@ -119,7 +145,7 @@ def ideq(ctx: Ctx) -> List[Ob]:
                     props = ["C15"] if cls.startswith("Typed") else ["C01", "C10"]
                     if f.top.qualname in ("Tree._unregister", "Node.get_clones"):
                         props = ["C02", "C01"]
-                    obs.append(ctx.ob("ID-EQ", props, f, n, n, True))
+                    obs.append(ctx.ob("ID-EQ", sorted(set(props) | set(family_props(f))), f, n, n, True))
     return obs
 
 
